@@ -429,7 +429,7 @@ def _make_types_index(nodes_):
                 included.add(node_.name)
                 for included_name, included_type in _make_types_index(node_.members):
                     yield included_name, included_type
-        else:
+        elif not isinstance(node_, Constant):
             yield node_.name, node_
 
 
@@ -488,6 +488,11 @@ def cross_reference(nodes, warn=null_warn):
         if isinstance(node, Typedef):
             cross_reference_types(node)
         elif isinstance(node, Struct):
+            member_names = set(member.name for member in node.members)
+            for member in node.members:
+                if member.bound and member.bound not in member_names:
+                    msg = "Array '{}' of struct {} is sized by '{}', which is not a member of the struct."
+                    raise ModelError(msg.format(member.name, node.name, member.bound))
             list(map(cross_reference_types, node.members))
             list(map(evaluate_array_sizes, node.members))
         elif isinstance(node, Union):
